@@ -219,7 +219,22 @@ pub fn validate_container<'a>(d: &'a [u8], problems: &mut Problems) -> Option<Ve
     Some(tables)
 }
 
-fn cross_table(tables: &[Table<'_>], kind: WrittenKind, problems: &mut Problems) {
+/// Which relations to assert: all of them for fonts the library wrote; for tables handed out by
+/// the WOFF2 provider only those between tables the decoder itself rebuilt.
+#[derive(Clone, Copy)]
+pub struct Relations {
+    pub hmtx: bool,
+    pub loca_glyf: bool,
+    pub passthrough: bool,
+}
+
+const ALL_RELATIONS: Relations = Relations {
+    hmtx: true,
+    loca_glyf: true,
+    passthrough: true,
+};
+
+fn cross_table(tables: &[Table<'_>], kind: WrittenKind, rel: Relations, problems: &mut Problems) {
     let mut bad = |name: &str, msg: String| problems.push((name.to_string(), msg));
     let map: BTreeMap<u32, &Table> = tables.iter().map(|t| (t.tag, t)).collect();
     let get = |t: u32| map.get(&t).map(|t| t.data);
@@ -229,7 +244,7 @@ fn cross_table(tables: &[Table<'_>], kind: WrittenKind, problems: &mut Problems)
     };
     let num_glyphs = usize::from(be16(maxp, 4).unwrap_or(0));
     let loc_format = be16(head, 50).unwrap_or(0);
-    if let (Some(hhea), Some(hmtx)) = (get(tag::HHEA), get(tag::HMTX)) {
+    if let (true, Some(hhea), Some(hmtx)) = (rel.hmtx, get(tag::HHEA), get(tag::HMTX)) {
         let nhm = usize::from(be16(hhea, 34).unwrap_or(0));
         if nhm > num_glyphs {
             bad(
@@ -249,7 +264,7 @@ fn cross_table(tables: &[Table<'_>], kind: WrittenKind, problems: &mut Problems)
             bad("hhea-numberOfHMetrics", "0".into());
         }
     }
-    if let (Some(loca), Some(glyf)) = (get(tag::LOCA), get(tag::GLYF)) {
+    if let (true, Some(loca), Some(glyf)) = (rel.loca_glyf, get(tag::LOCA), get(tag::GLYF)) {
         let mut offs: Vec<usize> = Vec::with_capacity(num_glyphs + 1);
         if loc_format == 0 {
             if loca.len() != 2 * (num_glyphs + 1) {
@@ -326,6 +341,9 @@ fn cross_table(tables: &[Table<'_>], kind: WrittenKind, problems: &mut Problems)
             }
         }
     }
+    if !rel.passthrough {
+        return;
+    }
     if let Some(post) = get(tag::POST) {
         if be32(post, 0) == Some(0x0003_0000) && post.len() != 32 {
             bad("post-v3-length", format!("{}", post.len()));
@@ -336,8 +354,386 @@ fn cross_table(tables: &[Table<'_>], kind: WrittenKind, problems: &mut Problems)
     if kind == WrittenKind::Sfnt {
         if let Some(cmap) = get(tag::CMAP) {
             check_cmap(cmap, problems);
+            check_cmap_glyph_ids(cmap, num_glyphs, problems);
         }
     }
+    if let Some(post) = get(tag::POST) {
+        check_post_v2(post, num_glyphs, problems);
+    }
+    if let Some(cff) = get(tag::CFF) {
+        check_cff_counts(cff, Some(num_glyphs), problems);
+    }
+}
+
+/// post version 2.0: numberOfGlyphs equals maxp.numGlyphs, every glyphNameIndex refers to a
+/// standard name or to a Pascal string that is inside the table.
+fn check_post_v2(post: &[u8], num_glyphs: usize, problems: &mut Problems) {
+    if be32(post, 0) != Some(0x0002_0000) {
+        return;
+    }
+    let mut bad = |name: &str, msg: String| problems.push((name.to_string(), msg));
+    let Some(n) = be16(post, 32).map(usize::from) else {
+        bad("post-v2-truncated", format!("{} bytes", post.len()));
+        return;
+    };
+    if n != num_glyphs {
+        bad("post-v2-numGlyphs", format!("post says {} glyphs, maxp {}", n, num_glyphs));
+    }
+    let names_start = 34 + 2 * n;
+    if post.len() < names_start {
+        bad("post-v2-truncated", format!("{} bytes for {} glyphs", post.len(), n));
+        return;
+    }
+    // count the Pascal strings
+    let mut p = names_start;
+    let mut names = 0usize;
+    while p < post.len() {
+        let l = usize::from(post[p]);
+        if p + 1 + l > post.len() {
+            bad("post-v2-name-overrun", format!("string at {} of length {} leaves the table ({})", p, l, post.len()));
+            return;
+        }
+        p += 1 + l;
+        names += 1;
+    }
+    for g in 0..n {
+        let idx = usize::from(be16(post, 34 + 2 * g).unwrap_or(0));
+        if idx >= 258 && idx - 258 >= names {
+            bad("post-v2-name-index", format!("glyph {} uses name index {} but only {} custom names are stored", g, idx, names));
+            return;
+        }
+    }
+}
+
+/// Every glyph id a generated cmap subtable (formats 0, 4, 6, 12) can return is < numGlyphs.
+fn check_cmap_glyph_ids(cmap: &[u8], num_glyphs: usize, problems: &mut Problems) {
+    let mut bad = |name: &str, msg: String| problems.push((name.to_string(), msg));
+    let n = usize::from(be16(cmap, 2).unwrap_or(0));
+    for i in 0..n {
+        let r = 4 + 8 * i;
+        let Some(off) = be32(cmap, r + 4) else { return };
+        let Some(sub) = cmap.get(off as usize..) else { continue };
+        match be16(sub, 0) {
+            Some(0) => {
+                for c in 0..256usize {
+                    if let Some(&g) = sub.get(6 + c) {
+                        if usize::from(g) >= num_glyphs {
+                            bad("cmap-glyph-id", format!("format 0 maps {} to glyph {} >= {}", c, g, num_glyphs));
+                            return;
+                        }
+                    }
+                }
+            }
+            Some(4) => {
+                let len = usize::from(be16(sub, 2).unwrap_or(0)).min(sub.len());
+                let segx2 = usize::from(be16(sub, 6).unwrap_or(0));
+                if segx2 == 0 || 16 + 4 * segx2 > len {
+                    continue;
+                }
+                let seg = segx2 / 2;
+                let (ends, starts) = (14, 14 + segx2 + 2);
+                let (deltas, ranges) = (starts + segx2, starts + 2 * segx2);
+                for s in 0..seg {
+                    let (Some(e), Some(st), Some(d), Some(ro)) = (
+                        be16(sub, ends + 2 * s),
+                        be16(sub, starts + 2 * s),
+                        be16(sub, deltas + 2 * s),
+                        be16(sub, ranges + 2 * s),
+                    ) else {
+                        break;
+                    };
+                    if st > e || (st == 0xFFFF && e == 0xFFFF) {
+                        continue;
+                    }
+                    for c in st..=e {
+                        let g = if ro == 0 {
+                            c.wrapping_add(d)
+                        } else {
+                            let p = ranges + 2 * s + usize::from(ro) + 2 * usize::from(c - st);
+                            if p + 2 > len {
+                                break;
+                            }
+                            match be16(sub, p) {
+                                Some(0) | None => 0,
+                                Some(v) => v.wrapping_add(d),
+                            }
+                        };
+                        if usize::from(g) >= num_glyphs {
+                            bad("cmap-glyph-id", format!("format 4 maps U+{:04X} to glyph {} >= {}", c, g, num_glyphs));
+                            return;
+                        }
+                        if c == 0xFFFF {
+                            break;
+                        }
+                    }
+                }
+            }
+            Some(6) => {
+                let count = usize::from(be16(sub, 8).unwrap_or(0));
+                for k in 0..count {
+                    if let Some(g) = be16(sub, 10 + 2 * k) {
+                        if usize::from(g) >= num_glyphs {
+                            bad("cmap-glyph-id", format!("format 6 entry {} is glyph {} >= {}", k, g, num_glyphs));
+                            return;
+                        }
+                    }
+                }
+            }
+            Some(12) => {
+                let groups = be32(sub, 12).unwrap_or(0) as usize;
+                for g in 0..groups {
+                    let (Some(s), Some(e), Some(gid)) =
+                        (be32(sub, 16 + 12 * g), be32(sub, 20 + 12 * g), be32(sub, 24 + 12 * g))
+                    else {
+                        break;
+                    };
+                    if e >= s && (gid as u64 + u64::from(e - s)) >= num_glyphs as u64 {
+                        bad("cmap-glyph-id", format!("format 12 group {}..{} maps up to glyph {} >= {}", s, e, gid as u64 + u64::from(e - s), num_glyphs));
+                        return;
+                    }
+                }
+            }
+            _ => {}
+        }
+    }
+}
+
+// ---- minimal independent CFF reader: just enough to count what must agree
+
+struct CffIndex {
+    count: usize,
+    /// absolute offset of the first byte after the INDEX
+    end: usize,
+    /// absolute [start, end) of each object
+    objs: Vec<(usize, usize)>,
+}
+
+fn cff_index(d: &[u8], at: usize) -> Option<CffIndex> {
+    let count = usize::from(be16(d, at)?);
+    if count == 0 {
+        return Some(CffIndex { count, end: at + 2, objs: Vec::new() });
+    }
+    let off_size = usize::from(*d.get(at + 2)?);
+    if !(1..=4).contains(&off_size) {
+        return None;
+    }
+    let offs_at = at + 3;
+    let data_at = offs_at + (count + 1) * off_size - 1; // offsets are 1-based
+    let read = |i: usize| -> Option<usize> {
+        let b = d.get(offs_at + i * off_size..offs_at + (i + 1) * off_size)?;
+        Some(b.iter().fold(0usize, |a, &x| (a << 8) | usize::from(x)))
+    };
+    let mut objs = Vec::with_capacity(count.min(70000));
+    let mut prev = read(0)?;
+    for i in 1..=count {
+        let o = read(i)?;
+        if o < prev {
+            return None;
+        }
+        objs.push((data_at + prev, data_at + o));
+        prev = o;
+    }
+    let end = data_at + prev;
+    if end > d.len() {
+        return None;
+    }
+    Some(CffIndex { count, end, objs })
+}
+
+/// Operators of a DICT with their integer operands (reals are skipped as 0).
+fn cff_dict(d: &[u8]) -> Vec<(u16, Vec<i64>)> {
+    let mut out = Vec::new();
+    let mut ops: Vec<i64> = Vec::new();
+    let mut i = 0;
+    while i < d.len() {
+        let b = d[i];
+        match b {
+            0..=21 => {
+                let op = if b == 12 {
+                    i += 1;
+                    0x0c00 | u16::from(*d.get(i).unwrap_or(&0))
+                } else {
+                    u16::from(b)
+                };
+                out.push((op, std::mem::take(&mut ops)));
+                i += 1;
+            }
+            28 => {
+                ops.push(i64::from(i16::from_be_bytes([*d.get(i + 1).unwrap_or(&0), *d.get(i + 2).unwrap_or(&0)])));
+                i += 3;
+            }
+            29 => {
+                let mut v = [0u8; 4];
+                for k in 0..4 {
+                    v[k] = *d.get(i + 1 + k).unwrap_or(&0);
+                }
+                ops.push(i64::from(i32::from_be_bytes(v)));
+                i += 5;
+            }
+            30 => {
+                i += 1;
+                while i < d.len() {
+                    let n = d[i];
+                    i += 1;
+                    if n & 0x0f == 0x0f || n >> 4 == 0x0f {
+                        break;
+                    }
+                }
+                ops.push(0);
+            }
+            32..=246 => {
+                ops.push(i64::from(b) - 139);
+                i += 1;
+            }
+            247..=250 => {
+                ops.push((i64::from(b) - 247) * 256 + i64::from(*d.get(i + 1).unwrap_or(&0)) + 108);
+                i += 2;
+            }
+            251..=254 => {
+                ops.push(-(i64::from(b) - 251) * 256 - i64::from(*d.get(i + 1).unwrap_or(&0)) - 108);
+                i += 2;
+            }
+            _ => {
+                i += 1;
+            }
+        }
+    }
+    out
+}
+
+/// CharStrings count agrees with maxp (when given); charset and FDSelect cover exactly the
+/// CharStrings. Plain byte arithmetic, independent of allsorts' CFF code.
+pub fn check_cff_counts(cff: &[u8], num_glyphs: Option<usize>, problems: &mut Problems) -> Option<usize> {
+    let mut bad = |name: &str, msg: String| problems.push((name.to_string(), msg));
+    let hdr = usize::from(*cff.get(2)?);
+    if cff.first() != Some(&1) {
+        return None;
+    }
+    let names = match cff_index(cff, hdr) {
+        Some(i) => i,
+        None => {
+            bad("cff-name-index", "unreadable".into());
+            return None;
+        }
+    };
+    let tops = match cff_index(cff, names.end) {
+        Some(i) => i,
+        None => {
+            bad("cff-top-dict-index", "unreadable".into());
+            return None;
+        }
+    };
+    if tops.count != names.count || tops.count == 0 {
+        bad("cff-font-count", format!("{} names, {} top dicts", names.count, tops.count));
+        return None;
+    }
+    let (s, e) = tops.objs[0];
+    let dict = cff_dict(cff.get(s..e)?);
+    let find = |op: u16| dict.iter().find(|(o, _)| *o == op).and_then(|(_, v)| v.last().copied());
+    let cs_off = match find(17) {
+        Some(o) if o > 0 => o as usize,
+        _ => {
+            bad("cff-no-charstrings", "Top DICT has no CharStrings offset".into());
+            return None;
+        }
+    };
+    let cs = match cff_index(cff, cs_off) {
+        Some(i) => i,
+        None => {
+            bad("cff-charstrings-index", format!("unreadable at {}", cs_off));
+            return None;
+        }
+    };
+    if let Some(n) = num_glyphs {
+        if cs.count != n {
+            bad("cff-glyph-count", format!("CharStrings has {} entries, maxp.numGlyphs is {}", cs.count, n));
+        }
+    }
+    let n = cs.count;
+    // charset
+    if let Some(off) = find(15) {
+        if off > 2 && n > 0 {
+            let off = off as usize;
+            match cff.get(off) {
+                Some(0) => {
+                    if off + 1 + 2 * (n - 1) > cff.len() {
+                        bad("cff-charset", format!("format 0 charset needs {} SIDs but leaves the table", n - 1));
+                    }
+                }
+                Some(f @ (1 | 2)) => {
+                    let rec = if *f == 1 { 3 } else { 4 };
+                    let mut covered = 0usize;
+                    let mut p = off + 1;
+                    while covered < n - 1 {
+                        let left = if rec == 3 {
+                            cff.get(p + 2).map(|&b| usize::from(b))
+                        } else {
+                            be16(cff, p + 2).map(usize::from)
+                        };
+                        match left {
+                            Some(l) => covered += l + 1,
+                            None => {
+                                bad("cff-charset", format!("format {} charset covers {} of {} glyphs", f, covered, n - 1));
+                                break;
+                            }
+                        }
+                        p += rec;
+                    }
+                    if covered > n - 1 {
+                        bad("cff-charset", format!("format {} charset covers {} glyphs, CharStrings has {}", f, covered + 1, n));
+                    }
+                }
+                other => bad("cff-charset", format!("format {:?} at {}", other, off)),
+            }
+        }
+    }
+    // FDSelect (CID-keyed)
+    if let Some(off) = find(0x0c25) {
+        let off = off as usize;
+        match cff.get(off) {
+            Some(0) => {
+                if off + 1 + n > cff.len() {
+                    bad("cff-fdselect", format!("format 0 FDSelect needs {} entries but leaves the table", n));
+                }
+            }
+            Some(3) => {
+                if let Some(nr) = be16(cff, off + 1).map(usize::from) {
+                    let first = be16(cff, off + 3);
+                    let sentinel = be16(cff, off + 3 + 3 * nr).map(usize::from);
+                    if nr == 0 || first != Some(0) || sentinel != Some(n) {
+                        bad(
+                            "cff-fdselect",
+                            format!("format 3 FDSelect: {} ranges, first {:?}, sentinel {:?}, CharStrings {}", nr, first, sentinel, n),
+                        );
+                    }
+                    // FD indices < FDArray count
+                    if let Some(fda) = find(0x0c24).and_then(|o| cff_index(cff, o as usize)) {
+                        let mut prev = None;
+                        for k in 0..nr {
+                            let g = be16(cff, off + 3 + 3 * k);
+                            let fd = cff.get(off + 5 + 3 * k).map(|&b| usize::from(b));
+                            if let (Some(g), Some(p)) = (g, prev) {
+                                if g <= p {
+                                    bad("cff-fdselect", format!("range {} starts at {} after {}", k, g, p));
+                                }
+                            }
+                            prev = g;
+                            if let Some(fd) = fd {
+                                if fd >= fda.count {
+                                    bad("cff-fdselect", format!("range {} selects FD {} of {}", k, fd, fda.count));
+                                }
+                            }
+                        }
+                    }
+                }
+            }
+            other => bad("cff-fdselect", format!("format {:?} at {}", other, off)),
+        }
+        if find(0x0c24).is_none() {
+            bad("cff-fdarray", "FDSelect without FDArray".into());
+        }
+    }
+    Some(n)
 }
 
 fn check_cmap(cmap: &[u8], problems: &mut Problems) {
@@ -467,16 +863,28 @@ fn self_load(w: &Written, fault_free: bool, problems: &mut Problems) {
             return;
         }
     };
+    query_every_glyph(&mut font, w.glyphs, w.kind, fault_free, w.kind == WrittenKind::Instance, problems);
+}
+
+fn query_every_glyph<P: FontTableProvider + allsorts::tables::SfntVersion>(
+    font: &mut Font<P>,
+    glyphs: Option<usize>,
+    kind: WrittenKind,
+    fault_free: bool,
+    check_static: bool,
+    problems: &mut Problems,
+) {
+    let mut bad = |name: &str, msg: String| problems.push((name.to_string(), msg));
     let n = font.num_glyphs();
-    if let Some(g) = w.glyphs {
-        if usize::from(n) < g && w.kind != WrittenKind::Whole {
+    if let Some(g) = glyphs {
+        if usize::from(n) < g && kind != WrittenKind::Whole {
             bad(
                 "self-load-glyph-count",
                 format!("{} glyphs requested, output has {}", g, n),
             );
         }
     }
-    if font.is_variable() && w.kind == WrittenKind::Instance {
+    if font.is_variable() && check_static {
         bad("instance-still-variable", "fvar present".into());
     }
     let cap = n.min(3000);
@@ -539,6 +947,9 @@ fn self_load(w: &Written, fault_free: bool, problems: &mut Problems) {
 }
 
 fn bare_cff(w: &Written, fault_free: bool, problems: &mut Problems) {
+    if fault_free {
+        check_cff_counts(&w.bytes, None, problems);
+    }
     match ReadScope::new(&w.bytes).read::<CFF<'_>>() {
         Ok(mut cff) => {
             let n = w.glyphs.unwrap_or(0).min(3000) as u16;
@@ -559,6 +970,39 @@ fn bare_cff(w: &Written, fault_free: bool, problems: &mut Problems) {
     }
 }
 
+/// Cross-table relations of a table set handed out by a provider (WOFF2 reconstruction).
+pub fn validate_reconstructed(tables: &[(u32, Vec<u8>)], rel: Relations) -> Problems {
+    let mut problems = Vec::new();
+    let ts: Vec<Table<'_>> = tables
+        .iter()
+        .map(|(t, d)| Table {
+            tag: *t,
+            checksum: 0,
+            offset: 0,
+            length: d.len(),
+            data: d,
+        })
+        .collect();
+    cross_table(&ts, WrittenKind::Instance, rel, &mut problems);
+    problems
+}
+
+/// The library can load a provider's tables and query every glyph.
+pub fn self_load_provider<P: FontTableProvider + allsorts::tables::SfntVersion>(provider: P, problems: &mut Problems) {
+    let has = |t: u32| provider.has_table(t);
+    if !(has(tag::CMAP) && has(tag::HHEA) && has(tag::HMTX)) {
+        return;
+    }
+    let mut font = match Font::new(provider) {
+        Ok(f) => f,
+        Err(e) => {
+            problems.push(("self-load-font".into(), format!("Font::new failed: {:?}", e)));
+            return;
+        }
+    };
+    query_every_glyph(&mut font, None, WrittenKind::Instance, true, false, problems);
+}
+
 /// `source_loadable`: `Font::new` succeeds on the source provider. The self-load half is a
 /// statement about the writer only when the source itself is loadable (whole_font and
 /// instance copy e.g. cmap through byte for byte; a source without a usable cmap cannot yield
@@ -575,7 +1019,7 @@ pub fn validate(w: &Written, fault_free: bool, source_loadable: bool) -> Problem
         // WOFF2 reconstructions), not for whole_font, which copies tables verbatim; and they
         // are only asserted for fault-free sources.
         if fault_free && w.kind != WrittenKind::Whole {
-            cross_table(&tables, w.kind, &mut problems);
+            cross_table(&tables, w.kind, ALL_RELATIONS, &mut problems);
         }
         if problems.is_empty() && source_loadable {
             self_load(w, fault_free, &mut problems);
